@@ -11,7 +11,10 @@ import impl_render
 
 import urwid
 
-from term_image.image import BlockImage, ITerm2Image, KittyImage, TextImage
+import term_image
+from term_image import AutoCellRatio
+from term_image.image import BlockImage, ITerm2Image, KittyImage, Size, TextImage
+from term_image.image import common as _common
 from term_image.widget import UrwidImage, UrwidImageCanvas
 
 DISGUISE = b"\b "
@@ -104,9 +107,28 @@ class Rec:
         return (ds.pop() if len(ds) == 1 else 0 if not ds else -1), out
 
 
+def apply_env(env, state):
+    """An environment change: global cell ratio (a number, "dynamic" or "fixed" = AutoCellRatio),
+    the terminal's cell size, the terminal size."""
+    if "cell_size" in env:
+        tests.set_cell_size(tuple(env["cell_size"]))
+        state["cell_size"] = list(env["cell_size"])
+    if "ratio" in env:
+        r = env["ratio"]
+        term_image.set_cell_ratio({"dynamic": AutoCellRatio.DYNAMIC, "fixed": AutoCellRatio.FIXED}[r]
+                                  if isinstance(r, str) else float(r))
+        state["ratio"] = r
+    if "term_size" in env:
+        import os
+        ts = os.terminal_size(tuple(env["term_size"]))
+        _common.get_terminal_size = term_image.utils.get_terminal_size = lambda: ts
+        state["term_size"] = list(env["term_size"])
+
+
 def run_case(case):
     """A history: one image, one or more UrwidImage widgets sharing it, a sequence of
-    ["render", widget, size] and ["trim", canvas (ordinal of its render step), trims] steps.
+    ["render", widget, size], ["trim", canvas (ordinal of its render step), trims] and
+    ["env", {...}] (environment change AFTER the widgets were constructed) steps.
     Canvases stay alive and are asked for content after later renders."""
     style = case["style"]
     cls = {"block": BlockImage, "kitty": KittyImage, "iterm2": ITerm2Image}[style]
@@ -122,6 +144,9 @@ def run_case(case):
     saved_term = tests.get_terminal_name_version()
     tests.set_terminal_name_version(term)
     UrwidImageCanvas._ti_disguise_state = case.get("cstate", 0)
+    saved_ts = (_common.get_terminal_size, term_image.utils.get_terminal_size)
+    term_image.set_cell_ratio(0.5)
+    envstate = {"ratio": 0.5, "cell_size": list(case.get("cell_size", (10, 20))), "term_size": [80, 30]}
     try:
         img = impl_render.make_image(case["img"])
         image = cls(img)
@@ -132,12 +157,19 @@ def run_case(case):
             widgets.append(widget)
         recs, alias = [], []
         for si, step in enumerate(case["steps"]):
-            if step[0] == "render":
+            if step[0] == "env":
+                apply_env(step[1], envstate)
+            elif step[0] == "render":
                 _, widx, size = step
                 widget, size = widgets[widx], tuple(size)
                 if not case.get("cache"):
                     urwid.CanvasCache.clear()
-                rm = widget.rows(size) if len(size) == 1 else None
+                rm = fit = ori = None
+                if len(size) == 1:
+                    # the environment function of the model, evaluated in the CURRENT environment
+                    fit = list(image._valid_size(size[0]))
+                    ori = list(image._valid_size(Size.ORIGINAL))
+                    rm = widget.rows(size)
                 canv = widget.render(size)
                 if not isinstance(canv, UrwidImageCanvas):
                     return {"error": f"render returned {type(canv).__name__}"}
@@ -147,10 +179,16 @@ def run_case(case):
                     continue
                 rec = Rec(canv, widx, size, image, si)
                 rec.d["text"] = isinstance(image, TextImage)
+                rec.d["env"] = dict(envstate, cell_ratio=term_image.get_cell_ratio())
                 if rm is not None:
+                    rec.d["fit"], rec.d["ori"] = fit, ori
                     rec.d["rows_method"] = rm
-                    # asked again after rendering (the answer must not depend on the order)
+                    # asked again after rendering (the answer must not depend on the order): first as urwid
+                    # does (its rows() wrapper answers from the cached canvas), then the method itself
                     rec.d["rows_method_after"] = widget.rows(size)
+                    if not case.get("cache"):
+                        urwid.CanvasCache.clear()
+                    rec.d["rows_method_after_fresh"] = widget.rows(size)
                 alias.append(len(recs))
                 recs.append(rec)
             else:
@@ -181,6 +219,9 @@ def run_case(case):
         UrwidImageCanvas._ti_disguise_state = 0
         tests.set_terminal_name_version(*saved_term)
         urwid.CanvasCache.clear()
+        _common.get_terminal_size, term_image.utils.get_terminal_size = saved_ts
+        tests.set_cell_size((10, 20))
+        term_image.set_cell_ratio(0.5)
 
 
 if __name__ == "__main__":
